@@ -1022,6 +1022,13 @@ def call_builtin(I, fv: BoundV, args: list, kwargs: dict, st, node=None) -> list
         r = I.probes["str.format"](I, recv, args, kwargs, st, node)
         if r is not None:
             return r
+    if isinstance(recv, str) and name == "format" and all(isinstance(a, (str, int)) and not isinstance(a, bool) for a in list(args) + list(kwargs.values())):
+        try:
+            return [(recv.format(*args, **kwargs), st)]
+        except (IndexError, KeyError, ValueError) as e:
+            from .absint import Raised
+
+            return [(Raised(type(e).__name__, node, "str.format"), st)]
     if isinstance(recv, str) and name == "join" and args:
         items = iter_values(I, args[0], st)
         if items is not None:
@@ -1871,6 +1878,32 @@ def _re_const(kind: str):
     return f
 
 
+def _ext_re_escape(I, args, kwargs, st, node):
+    import re as _re
+
+    if len(args) == 1 and isinstance(args[0], str) and not kwargs:
+        return [(_re.escape(args[0]), st)]
+    return None
+
+
+def _re_sub_const(kind: str):
+    """re.sub / re.subn(pattern, repl, string[, count]) on constants with a string replacement: a library fact."""
+
+    def f(I, args, kwargs, st, node):
+        import re as _re
+
+        if 3 <= len(args) <= 4 and all(isinstance(a, str) for a in args[:3]) and all(isinstance(a, int) for a in args[3:]) and not kwargs:
+            try:
+                r = getattr(_re, kind)(*args)
+            except (_re.error, IndexError):
+                st.note(f"re.{kind}: invalid pattern / replacement")
+                return [(Unknown(kind), st)]
+            return [(r, st)]
+        return None
+
+    return f
+
+
 def _ext_re_compile(I, args, kwargs, st, node):
     if len(args) in (1, 2) and isinstance(args[0], str) and all(isinstance(a, int) for a in args[1:]) and not kwargs:
         return [(Opaque("re.Pattern", repr(tuple(args))), st)]
@@ -1884,6 +1917,12 @@ def re_pattern_method(I, recv, name, args, kwargs, st, node):
         return _re_const(name)(I, [spec[0]] + list(args), kwargs, st, node)
     if len(spec) == 1 and name == "findall" and len(args) == 1:
         return _ext_re_findall(I, [spec[0]] + list(args), kwargs, st, node)
+    if len(spec) == 1 and name in ("sub", "subn") and 2 <= len(args) <= 3:
+        return _re_sub_const(name)(I, [spec[0]] + list(args), kwargs, st, node)
+    if len(spec) == 1 and name == "split" and len(args) == 1 and isinstance(args[0], str):
+        import re as _re
+
+        return [(st.alloc(HObj("list", items=_re.split(spec[0], args[0]))), st)]
     if name == "pattern" and not args:
         return [(spec[0], st)]
     return None
@@ -1938,6 +1977,9 @@ EXT_CALLS = {
     "ext:typist.literal_to_list": _ext_literal_to_list,
     "ext:typing.get_args": _ext_literal_to_list,
     "ext:re.compile": _ext_re_compile,
+    "ext:re.escape": _ext_re_escape,
+    "ext:re.sub": _re_sub_const("sub"),
+    "ext:re.subn": _re_sub_const("subn"),
     "ext:re.match": _re_const("match"),
     "ext:re.search": _re_const("search"),
     "ext:re.fullmatch": _re_const("fullmatch"),
